@@ -105,7 +105,7 @@ def native_sign_sensitive(shape=None, seed=0, container="set"):
 
 
 def native_tiny_constant(seed=0):
-    """A model whose constants are physically tiny (G = 6.674e-11, a picofarad): every output that is a PURE multiple of such a constant is
+    """A model whose constants are physically tiny (G = 6.674e-11, a picofarad, the elementary charge, Boltzmann's constant): every output that is a PURE multiple of such a constant is
     compared RELATIVE TO ITS OWN MAGNITUDE, CSE on and off, python filter and (thorough) generated C++.  Returns (problems, scenario)."""
     import warnings
 
@@ -118,6 +118,10 @@ def native_tiny_constant(seed=0):
     cal = sc.calibration[0]
     sc.state_model[a] = G * cal * b + G * a          # gravity-like pull: nothing of ordinary magnitude in this update
     sc.state_model[b] = b + sc.dt * a + pF * c3 * c3
+    # ... and constants far below any absolute tolerance one might pick (elementary charge, Boltzmann's constant): the third update is
+    # a PURE multiple of them, so a constant snapped to 0 or to a few digits shows at full relative size
+    qe, kB = sympy.Float(1.602176634e-19), sympy.Float(1.380649e-23)
+    sc.state_model[c3] = qe * a * b + kB * c3 * cal
     key = sc.sensor_names[0]
     r0 = sorted(sc.sensor_models[key])[0]
     sc.sensor_models[key][r0] = G * a * b + pF * c3
